@@ -35,9 +35,9 @@ def run(v, tier):
     v.sample({'label': cases[3]['label'], 'format': cases[3]['format'], 'holes': cases[3]['holes'], 'example': cases[3]['apps'][0]})
     # pretty / binary correspondence: shipped modules and recipe modules, both optimise settings
     mods = [{'name': n} for n in (['propositional', 'substitution', 'small_theory'] + ([] if quick else ['kore_lemmas', 'definedness', 'tautology']))]
-    mods += [{'module': m} for m in exprs.edge_modules(rng, 4 if quick else 60) + exprs.graph_modules(rng)]
+    mods += [{'module': m} for m in exprs.edge_modules(rng, 4 if quick else 250) + exprs.graph_modules(rng)]
     import mmgen
-    for k in range(6 if quick else 40):      # translated Metamath databases (the translator saves / pops / loads around every modus ponens)
+    for k in range(6 if quick else 200):      # translated Metamath databases (the translator saves / pops / loads around every modus ponens)
         text, _ = mmgen.database(random.Random(rng.random()), nlemmas=1, zmode=rng.choice(['none', 'all', 'dup']), deep=True)
         mods.append({'mmtext': text})
     preqs = [dict(m, cmd='prettybin', optimize=o) for m in mods for o in (False, True)]
